@@ -13,7 +13,7 @@ TITLE = 'timeseries operators equal the pointwise operation on aligned operands'
 LEAN_FILES = ['Basic', 'TSBasic', 'Fill', 'FillDriver', 'Align', 'AlignDriver', 'Ops', 'OpsF', 'OpsX', 'OpsDriver', 'FillLemmas', 'AlignLemmas', 'OpsLemmas',
               'OpsFLemmas', 'OpsXLemmas', 'C08']
 RULE = ('distinct protocol lines (operator / aggregate, operands, index policy, fill method) on which the implementation returned a '
-        'value and at least two Series operands with different indices are involved')
+        'value and at least two Series / DataFrame operands are involved')
 TRUSTED = ['correspondence harness (pv.engine, pv.proto, pv.props._w5ts) and generators of pv.props.c08',
            'Lean driver parser/printer (PygModel/Basic.lean, AlignDriver.lean, OpsDriver.lean)']
 ASSUMPTIONS = ['pandas arithmetic of two Series on one index is pointwise with NaN absorbing, a scalar broadcasts, x/NaN = NaN (reference kernel of PygModel/Ops.lean, sampled)',
